@@ -9,6 +9,7 @@ import (
 	"net/http"
 	"runtime"
 	"sort"
+	"strings"
 	"testing"
 	"time"
 
@@ -343,7 +344,23 @@ type unitRes struct {
 	evals, nontrivial int64
 	perKey            map[string]int64
 	list              []found
+	dim               map[string]int64 // operation-sequence families: cases per dimension
 }
+
+func (u *unitRes) addOps(vs []viol, c opsReport) {
+	for _, v := range vs {
+		if u.perKey == nil {
+			u.perKey = map[string]int64{}
+		}
+		u.perKey[v.key]++
+		if u.perKey[v.key] <= perUnitPerKey {
+			u.list = append(u.list, found{v.key, fmt.Sprintf("%s. %s", c, v.what), c})
+		}
+	}
+}
+
+// famDims: per operation-sequence family, how many cases exercise each dimension.
+var famDims = map[string]map[string]int64{}
 
 func (u *unitRes) add(vs []viol, out outcome, c fmt.Stringer) {
 	for _, v := range vs {
@@ -372,6 +389,12 @@ func runFamily(r *enumx.Run, f family, byKey, perFam map[string]int64, reported 
 		nt += res[i].nontrivial
 		for k, n := range res[i].perKey {
 			byKey[k] += n
+		}
+		for k, n := range res[i].dim {
+			if famDims[f.name] == nil {
+				famDims[f.name] = map[string]int64{}
+			}
+			famDims[f.name][k] += n
 		}
 	}
 	r.Count(evals, nt)
@@ -580,9 +603,10 @@ func run(r *enumx.Run, replay *enumx.ReplayCase) {
 	r.Rule("complete product, no sampling: LimitReadCloser: limit N x source length 0..N+3 x every composition of the source into read chunks x every ending {io.EOF | sticky source error} x {returned alone | together with the last chunk} x {no zero-length read | one (0,nil) read before chunk p, every p} x consumer {Read loop | io.CopyBuffer, buffer 1..N+2 each | io.ReadAll}. " +
 		"MultiReaderCloser: 1..3 sources x every (length, composition, ending incl. http.ErrBodyReadAfterClose, zero-read position, closable or not) per source x consumer {Read loop buffer 1..4 | io.ReadAll | io.Copy (WriteTo) | one Read then io.Copy (1 and 2 sources only)}; each case is observed once the stream has ended (= without a final Close) and again after Close. " +
 		"TeeReadCloser: every source as above (no ErrBodyReadAfterClose) x writer {accepts | room for T bytes then short write | room for T bytes then rejects}, T in 0..len-1 x consumer {Read loop | io.CopyBuffer, buffer 1..len+2 | io.ReadAll}. " +
+		"Operation sequences: every script of 1..4 (thorough 5) operations over {Read(1), Read(2), io.ReadFull(exactly the bytes still due), drain, io.Copy (Multi), Stop (Tee), Close, caller sets/overwrites/reverses the slice it passed as parts... (Multi)} with Close called 1..2 times at every position, Stop 0..2 times, at most one ReadFull and 1 (thorough 2) caller mutations x LimitReadCloser N 0..2 (3) over every source of length 0..N+2 | TeeReadCloser over every source of length 0..2 (3) x writer {plain, io.Closer, io.Closer failing} | NewMultiReaderCloser(parts...) over 1..2 sources of length 0..2 and 3 sources of length 0..1 (scripts of <=3, thorough <=4 operations), each source {not closable | closable | closable with a failing Close}; the clauses are evaluated after every operation. " +
 		"Every case is a distinct index tuple; non-trivial = the sources hand out at least one byte. A mid-stream error after chunk j of a longer source is the same script as the composition of its prefix ending in an error, so it is enumerated once, under the prefix length.")
 	r.Assume("sources follow the io.Reader contract (never n>len(p), sticky terminal condition); writers follow the io.Writer contract (n<len(p) only with a non-nil error)")
-	r.Assume("single goroutine; TeeReadCloser.Stop and concurrent use are outside C16")
+	r.Assume("single goroutine; concurrent use is outside C16; after Stop or Close only the clauses that hold at every moment are judged (no foreign bytes, writer = yielded, nothing written after Stop, close counts), not what a Read on a stopped/closed stream returns")
 	r.Assume("a source ending with http.ErrBodyReadAfterClose is at its end (multireadercloser.go says so for Read) and counts as already closed by its owner")
 
 	// MultiReaderCloser.WriteTo allocates a 32 KiB buffer per call; with the
@@ -597,9 +621,16 @@ func run(r *enumx.Run, replay *enumx.ReplayCase) {
 	reported := map[string]int{}
 	var fams []family
 	if r.Thorough() {
-		fams = []family{teeFamily(9), multiFamily(1, 3), multiFamily(2, 3), multiFamily(3, 3), limitFamily(seq(0, 12), false), limitFamily(seq(13, 16), true)}
+		fams = []family{
+			opsTeeFamily(3, 5), opsLimitFamily(3, 5), opsMultiFamily(1, 2, 5, 2), opsMultiFamily(2, 2, 4, 2), opsMultiFamily(3, 1, 4, 1),
+			teeFamily(9), multiFamily(1, 3), multiFamily(2, 3), multiFamily(3, 3), limitFamily(seq(0, 12), false), limitFamily(seq(13, 16), true)}
 	} else {
-		fams = []family{teeFamily(6), multiFamily(1, 3), multiFamily(2, 3), multiFamily(3, 2), limitFamily(seq(0, 8), false)}
+		fams = []family{
+			opsTeeFamily(2, 4), opsLimitFamily(2, 4), opsMultiFamily(1, 2, 4, 1), opsMultiFamily(2, 2, 4, 1), opsMultiFamily(3, 1, 3, 1),
+			teeFamily(6), multiFamily(1, 3), multiFamily(2, 3), multiFamily(3, 2), limitFamily(seq(0, 8), false)}
+	}
+	for k := range famDims {
+		delete(famDims, k)
 	}
 	samples(r)
 	for _, f := range fams {
@@ -614,6 +645,7 @@ func run(r *enumx.Run, replay *enumx.ReplayCase) {
 		wall[f.name] = time.Since(t0).Seconds()
 	}
 	r.Set("evaluations_per_family", perFam)
+	r.Set("operation_sequence_dimensions", famDims)
 	r.Set("wall_s_per_family", wall)
 	keys := make([]string, 0, len(byKey))
 	for k := range byKey {
@@ -684,6 +716,17 @@ func doReplay(r *enumx.Run, rc *enumx.ReplayCase) {
 		must(json.Unmarshal(rc.Case, &x))
 		out, vs = runTeeCase(x)
 		c = x
+	case "ops":
+		var x OpsCase
+		must(json.Unmarshal(rc.Case, &x))
+		var tr []string
+		vs = runOpsKeyed(x, &tr)
+		rep := opsReport{x, strings.Join(tr, "; ")}
+		fmt.Printf("replay: %s\n", rep)
+		for _, v := range vs {
+			r.Violation(v.key, fmt.Sprintf("%s. %s", rep, v.what), rep)
+		}
+		return
 	default:
 		panic("c16: replay file names no family")
 	}
